@@ -13,8 +13,8 @@ PROPERTY = "C09"
 DEFAULT_OPTS = {"validate": 2, "timeout_ms": 15000, "budget_s": 300, "max_paths": 40}
 
 META = {
-    "bounds": "one polynomial map g(y; a, b, c) = a*y^2 + b*y - c*w(y) with symbolic leaves a, b, c supplied in 10 representations "
-              "(pure function, nn.Module, nested nn.Module, EditableModule with derived / aliased / list- and dict-held tensors, "
+    "bounds": "one polynomial map g(y; a, b, c) = a*y^2 + b*y - c*w(y) with symbolic leaves a, b, c supplied in 11 representations "
+              "(pure function, nn.Module, nested nn.Module, nn.Module with a tied (shared) Parameter, EditableModule with derived / aliased / list- and dict-held tensors, "
               "nn.Module inside EditableModule, single siblings, siblings of 2 and of 3 methods of different objects) x functionals {rootfinder (caller-supplied forward), "
               "solve_ivp (euler, 2 steps), quad (n=2), jac products, mcquad (mhcustom, thorough)} x requires_grad patterns {all, first "
               "frozen, last frozen}; values, first- and second-order gradients w.r.t. the underlying leaves are proved identical to the "
@@ -155,6 +155,29 @@ def build(kind, a, b, c):
         def sib3(y):
             return ma.forward(y) + mb.forward(y) - mc.forward(y)
         return sib3, (), [a, mb.b, c]
+    if kind == "nn_tied":
+        # the SAME Parameter registered in two sub-modules (tied weights): a enters through both
+        class Part(torch.nn.Module):
+            def __init__(self, a_):
+                super().__init__()
+                self.a = a_
+
+            def forward(self, y):
+                return self.a * y * y * 0.5
+
+        class Tied(torch.nn.Module):
+            def __init__(self, a_, b_, c_):
+                super().__init__()
+                pa = torch.nn.Parameter(a_, requires_grad=a_.requires_grad)
+                self.enc = Part(pa)
+                self.dec = Part(pa)
+                self.b = torch.nn.Parameter(b_, requires_grad=b_.requires_grad)
+                self.c = torch.nn.Parameter(c_, requires_grad=c_.requires_grad)
+
+            def forward(self, y):
+                return self.enc(y) + self.dec(y) + self.b * y - self.c
+        m = Tied(a, b, c)
+        return m.forward, (), [m.enc.a, m.b, m.c]
     if kind == "mixed":
         # a held by a module, b and c explicit
         class Half(torch.nn.Module):
@@ -308,7 +331,7 @@ def configs(tier):
     def add(id_, scenario, opts=None, **params):
         cfgs.append({"id": id_, "scenario": scenario, "params": params, "opts": opts or {}})
 
-    kinds = ["nn", "nn_nested", "editable", "editable_nn", "sibling", "multi_sibling", "multi_sibling3", "mixed"]
+    kinds = ["nn", "nn_nested", "nn_tied", "editable", "editable_nn", "sibling", "multi_sibling", "multi_sibling3", "mixed"]
     functionals = ["rootfinder", "solve_ivp", "quad", "jac"]
     # functionals that wrap the user's function in a sibling of their own
     for fn in ("equilibrium", "quad_tuple", "hess"):
